@@ -109,7 +109,7 @@ fn bfs(report: &Report, v: u8, max_depth: usize, t: &mut Tally) {
     frontier.push_back((room.state.clone(), 0));
     t.states += 1;
     while let Some((state, depth)) = frontier.pop_front() {
-        if depth >= max_depth {
+        if depth >= max_depth || report.over_budget("reachable-state BFS") {
             continue;
         }
         for mut act in bfs_actions(v, depth) {
@@ -188,8 +188,8 @@ fn main() {
 
     // S-part
     let depth = match args.tier {
-        Tier::Quick => 3,
-        Tier::Thorough => 4,
+        Tier::Quick => 4,
+        Tier::Thorough => 6,
     };
     let versions: Vec<u8> = (1..=11).collect();
     par_shards(&report, versions.len(), |i, t| bfs(&report, versions[i], depth, t));
